@@ -183,6 +183,11 @@ theorem c17_connection_keeps_accepting (s : Sys) (c : Conn) (h : c.accepted < c.
     canAccept streamsHandledInOwnTasks s c = true := by
   simp [canAccept, streams_in_own_tasks, h]
 
+/-- … and a client that is new to the server is accepted however long a topic has been stalled: between two `accept()`s the
+    endpoint's loop awaits nothing but the hand-over of the connection to a task of its own (and the shutdown) — regenerated
+    from `Server::listen` / `Server::connect`; nothing there asks a router for anything. -/
+theorem c17_endpoint_keeps_accepting : endpointLoopAwaitsNothingElse = true := by decide
+
 /-- The defect this guards against, for the record: with `handle_stream` awaited inline, a connection whose last
     registration waits on the stalled topic's full channel accepts nothing more. -/
 theorem c17_inline_registration_blocks_the_connection :
@@ -222,4 +227,5 @@ end Selium.Server
 #print axioms Selium.Server.lockInv_init
 #print axioms Selium.Server.streams_in_own_tasks
 #print axioms Selium.Server.c17_connection_keeps_accepting
+#print axioms Selium.Server.c17_endpoint_keeps_accepting
 #print axioms Selium.Server.c17_inline_registration_blocks_the_connection
